@@ -292,8 +292,19 @@ def check_gen_bits(ctx, res, config="all"):
                 errs.append("the shifted word is not selected by index")
             else:
                 il = idx[0]["local"]
-                a = atoms.of_local(il)
-                if not ("len" in calls_of(a) and params_of(a) == {2} and 1 in consts_of(a)):
+                fl = core.Flow(b)
+                last_ok = False
+                for r in fl.roots_of_local(il):
+                    if r[0] == "binop":
+                        rv2 = b.blocks[r[1]]["stmts"][r[2]]["rv"]
+                        if rv2["op"].startswith("Sub") and core.op_const(rv2["b"]) == 1:
+                            ra = fl.roots_of_operand(rv2["a"])
+                            for q in ra:
+                                if q[0] == "call" and (q[2] or "").endswith("::len"):
+                                    lt = b.blocks[q[1]]["term"]
+                                    if any(z[0] == "param" and z[1] == 2 for z in fl.roots_of_operand(lt["args"][0])):
+                                        last_ok = True
+                if not last_ok:
                     errs.append("the shifted word is not the last one (index len - 1)")
     if errs:
         res.fail(Finding("R10-gen-bits", b.path, "; ".join(errs), b))
